@@ -51,7 +51,7 @@ class C13(Prop):
                   "fasta->afa->fasta identity, --namelen round trip, unaligned output loses no residue in the 60-column wrapping); esl-alistat counts "
                   "(every column has K+1 counters, a canonical residue/gap is counted in its own cell, missing/nonresidue nowhere); esl-afetch returns a record whose "
                   "name or accession is the key (first match without an index, names before accessions with one; the verbatim echo is the record's own lines up to its //); "
-                  "esl-compstruct (correct <= pairs, strict rule symmetric, self comparison perfect, Mathews' rule only relaxes); esl-alimask/-alimanip subset theorems. "
+                  "esl-compstruct (correct <= pairs, strict rule symmetric, self comparison perfect, Mathews' rule only relaxes); esl-compalign self comparison; esl-alimask/-alimanip subset theorems. "
                   "esl-translate, esl-weight, esl-alirev and easel filter are compositions of the C17 ORF machine, the C16 weighting/filter models and the C15 "
                   "alignment operations with the C03 readers/writers. "
                   "Tie: the sanitizer-built tools of the working tree are run on generated valid inputs - including files that hold SEVERAL alignments of different "
@@ -63,9 +63,11 @@ class C13(Prop):
                   "pages/tool sources, tied by exact stdout comparison only on the generated valid-input distribution; printf rounding modelled by exact "
                   "rational round-half-even (L0), binary64/binary32 arithmetic of the tools mirrored operation by operation (no theorem about rounded values); "
                   "the crash/hang half is support, not proof: a tool death outside the explored inputs is not excluded. "
-                  "Tools with no reference function (esl-ssdraw, -alimerge, -alimap, -compalign, -construct, -histplot, -mixdchlet) are covered by the search only; "
-                  "esl-alistat --weight/--small/--pcinfo/--psinfo/--bpinfo, esl-alimask -p, esl-reformat --small/--id_map by python monitors or the search only. "
-                  "No known finding is open: the 16 deaths recorded at the start of round 4 were repaired in /repo (12 patches proposed by this builder); their witnesses run as regression cases.")
+                  "Tools with no reference function (esl-ssdraw, -alimerge, -alimap, -construct, -histplot, -mixdchlet) are covered by the search only; "
+                  "esl-alistat --small, esl-alimask --small, esl-reformat --small/--id_map by python monitors or the search only. "
+                  "The 16 deaths recorded at the start of round 4 and one more found while modelling esl-alimask -p were repaired in /repo (13 patches proposed by this builder); their witnesses run "
+                  "as regression cases, as does the Clustal-writer zero-column abort (fc170bb). Open (patches proposed, known-finding entries): esl_sq_Copy text->digital "
+                  "#=GR markup one byte short (esl-alimanip --trim), esl-compalign -p NULL ta->pp[i].")
     trusted_base = ["reference functions (lean/EaselModel/Miniapps) tied to the tools by exact stdout comparison on generated valid inputs",
                     "python runner harness/h_miniapps.py, gcc, ASan/UBSan/LSan, process/file-system behaviour",
                     "Lean compiler/runtime for the executable driver; libc printf rounding modelled by exact rational rounding (L0)"]
@@ -73,11 +75,12 @@ class C13(Prop):
                    "esl-reformat (every alignment format in and out, fasta out of every alignment format, -d -l -n -r -u -x --gapsym --rename --replace --mingap --nogap --keeprf "
                    "--wussify --dewuss --fullwuss --namelen, --ignore/--acceptx on FASTA), esl-shuffle (-m -k -w -r -N -L, -G for dna/rna, -A -b), esl-sfetch "
                    "(--index, key, -r, -n, -c, -f, -C, -o, -O), esl-afetch (--index, key by name/accession, -f, -o, -O, --outformat), easel downsample (lines, -s, -S), "
-                   "esl-translate (-c -l -m -M --watson --crick -W), esl-alistat (default, -1, --list --icinfo --rinfo --iinfo --cinfo --noambig; Stockholm/Pfam multi-alignment files and afa), "
+                   "esl-translate (-c -l -m -M --watson --crick -W), esl-alistat (default, -1, --list --icinfo --rinfo --pcinfo --psinfo --iinfo --cinfo --noambig --bpinfo --weight; Stockholm/Pfam multi-alignment files and afa), "
                    "easel alistat (default, -1; afa and guessed Stockholm/Pfam), esl-weight (-g -p -b --id -f --idf), easel filter (default options), easel index, "
-                   "esl-alimask (-t, -g, --rf-is-mask, mask file, --fmask/--gmask files), esl-alimanip (selection/removal/numbering options), esl-compstruct (-m -p)",
-                   "alphabet guessing, the non-FASTA sequence formats as input, esl-alistat --weight/--small/--pcinfo/--psinfo/--bpinfo, esl-alimask -p, "
-                   "esl-reformat --small/--id_map/hmmpgmd, esl-compalign, esl-construct, esl-alimap, esl-alimerge, esl-ssdraw, esl-histplot, esl-mixdchlet are not modelled "
+                   "esl-alimask (-t, -g, -p with --pfract/--pthresh/--pavg/--ppcons/--pallgapok, -g -p, --rf-is-mask, mask file, --keepins, --fmask/--gmask/--pmask files), "
+                   "esl-alimanip (selection/removal/numbering options), esl-compstruct (-m -p), esl-compalign (default, -c), esl-alipid / esl-alirev / esl-weight on multi-alignment Stockholm/Pfam files",
+                   "alphabet guessing, the non-FASTA sequence formats as input, the --small modes (esl-alistat, esl-alimask, esl-reformat), "
+                   "esl-reformat --id_map/hmmpgmd, esl-compalign -p, esl-construct, esl-alimap, esl-alimerge, esl-ssdraw, esl-histplot, esl-mixdchlet are not modelled "
                    "(python monitors for some, the search for all)",
                    "process and file-system behaviour of the tools, libc printf, and the python runner are trusted; a NaN the tools print is `0.0/0.0` on x86-64 (`-nan`)",
                    "the fixed search streams are the same at every seed (so that every death of the unchanged tree is an exactly known witness); every tool "
